@@ -99,7 +99,7 @@ def createAttributeNodes (c : BCfg) (prepared : List PAttr) (i18nAttrs : List (S
     match pa.name, pa.expr with
     | none, some expr => do
       let did ← freshId
-      match decodeEntities c.rx expr.str with
+      match (if c.q.attrDecodeTwice then decodeEntities c.rx expr.str else some expr.str) with
       | none => bCrash "unsupported-entity"
       | some d => pure (acc ++ [(i, did, EN.valueD { expr with str := d } (pa.text.map (·.str)))])
     | _, _ => pure acc) []
@@ -143,7 +143,7 @@ def createAttributeNodes (c : BCfg) (prepared : List PAttr) (i18nAttrs : List (S
           pure (nodes ++ [Node.dictAttrs did e exclude], i + 1)
         | none => bCrash "internal"
       | some name =>
-        match decodeEntities c.rx expr.str with
+        match (if c.q.attrDecodeTwice then decodeEntities c.rx expr.str else some expr.str) with
         | none => bCrash "unsupported-entity"
         | some d =>
           let dt : Tok := { expr with str := d }
